@@ -12,22 +12,22 @@ import (
 func init() {
 	register(&Rule{
 		ID: "R01.1", Props: []string{"C01", "C10"}, Engine: "guard + flow",
-		Text: "publish only after a successful copy: in both finalizePut helpers every KeyLocationMap.Put is dominated by the nil edge of the put finalizer's error and publishes the very Location that finalizer returned; in flatBlobAccess.GetFromComposite slices are registered only after finalizePut / the parent lookup succeeded",
+		Text:  "publish only after a successful copy: in both finalizePut helpers every KeyLocationMap.Put is dominated by the nil edge of the put finalizer's error and publishes the very Location that finalizer returned; in flatBlobAccess.GetFromComposite slices are registered only after finalizePut / the parent lookup succeeded",
 		Floor: 3, MustExist: true, Run: runR011,
 	})
 	register(&Rule{
 		ID: "R10.1", Props: []string{"C10"}, Engine: "flow + table",
-		Text: "reads consult only lookup keys of the requested name and its ancestors: getAllLookupKeys maps GetDigestsWithParentInstanceNames() through the instance-aware key format (KeyWithInstance), the canonical key uses KeyWithoutInstance; in Get and FindMissing the keys handed to getLeastSpecificLookupEntry derive from getAllLookupKeys of the requested digest, the KeyLocationMap is read directly only in helpers, and the canonical entry is consulted only in syncFromCanonicalEntry / Put",
+		Text:  "reads consult only lookup keys of the requested name and its ancestors: getAllLookupKeys maps GetDigestsWithParentInstanceNames() through the instance-aware key format (KeyWithInstance), the canonical key uses KeyWithoutInstance; in Get and FindMissing the keys handed to getLeastSpecificLookupEntry derive from getAllLookupKeys of the requested digest, the KeyLocationMap is read directly only in helpers, and the canonical entry is consulted only in syncFromCanonicalEntry / Put",
 		Floor: 6, MustExist: true, Run: runR101,
 	})
 	register(&Rule{
 		ID: "R10.2", Props: []string{"C10", "C01"}, Engine: "guard",
-		Text: "possession proven before access is granted: in hierarchicalCASBlobAccess.Put a lookup entry for content that already exists is written only after the uploader's buffer was consumed without error (dominated by the nil edge of IntoWriter on the uploaded buffer), otherwise only through finalizePut of the data the uploader supplied",
+		Text:  "possession proven before access is granted: in hierarchicalCASBlobAccess.Put a lookup entry for content that already exists is written only after the uploader's buffer was consumed without error (dominated by the nil edge of IntoWriter on the uploaded buffer), otherwise only through finalizePut of the data the uploader supplied",
 		Floor: 1, MustExist: true, Run: runR102,
 	})
 	register(&Rule{
 		ID: "R10.3", Props: []string{"C10"}, Engine: "flow (provenance)",
-		Text: "no widening: the lookup key rewritten by a refresh (syncFromCanonicalEntry, finalizePut in Get/FindMissing) is the key that getLeastSpecificLookupEntry returned for this request in this hold; the lookup key written by Put is getMostSpecificLookupKey of the uploaded digest; canonical keys are getCanonicalKey of the digest; nothing else writes lookup entries",
+		Text:  "no widening: the lookup key rewritten by a refresh (syncFromCanonicalEntry, finalizePut in Get/FindMissing) is the key that getLeastSpecificLookupEntry returned for this request in this hold; the lookup key written by Put is getMostSpecificLookupKey of the uploaded digest; canonical keys are getCanonicalKey of the digest; nothing else writes lookup entries",
 		Floor: 6, MustExist: true, Run: runR103,
 	})
 }
@@ -212,6 +212,54 @@ func runR102(c *Ctx) {
 	})
 	if n == 0 {
 		c.PassTrivial(name, "grant-existing", c.Pos(put.Pos()), "Put writes lookup entries only through finalizePut")
+	}
+	// what is ingested is what the uploader sent: every buffer handed to a
+	// put writer (the function LocationBlobMap.Put returned) is the upload
+	// parameter itself – never a buffer obtained from the store
+	nIngest := 0
+	allInstrs(put, func(ins ssa.Instruction) {
+		cl, ok := ins.(*ssa.Call)
+		if !ok || cl.Call.IsInvoke() || cl.Call.StaticCallee() != nil || len(cl.Call.Args) != 1 || !types.Identical(cl.Call.Args[0].Type(), bufT) {
+			return
+		}
+		nIngest++
+		bad := ""
+		seen := map[ssa.Value]bool{}
+		var origin func(v ssa.Value)
+		origin = func(v ssa.Value) {
+			v = stripConv(v)
+			if seen[v] || bad != "" {
+				return
+			}
+			seen[v] = true
+			switch x := v.(type) {
+			case *ssa.Parameter:
+				if x != bparam {
+					bad = "another parameter"
+				}
+			case *ssa.Phi:
+				for _, e := range x.Edges {
+					origin(e)
+				}
+			case *ssa.UnOp:
+				if al, ok := x.X.(*ssa.Alloc); ok && x.Op == token.MUL {
+					for _, s := range cellStores(al) {
+						origin(s)
+					}
+					return
+				}
+				bad = "a value read from memory"
+			case *ssa.Call:
+				bad = "the result of " + x.Call.String()
+			default:
+				bad = v.String()
+			}
+		}
+		origin(cl.Call.Args[0])
+		c.Check(bad == "", name, "ingests-upload", c.Pos(cl.Pos()), "the data written (and thereby validated) is the uploader's", "the buffer handed to the put writer can be "+bad+" instead of the uploaded buffer: the object is (re)stored and the uploader's lookup entry registered without the uploader having supplied valid content – access to an object it does not possess")
+	})
+	if nIngest == 0 {
+		c.Fail(name, "ingests-upload", c.Pos(put.Pos()), "Put never hands the uploaded buffer to a put writer")
 	}
 }
 
